@@ -60,8 +60,23 @@ def select(hists, limit, rng, need=lambda h: True):
     return [by[k] for k in keys]
 
 
+def replay_file(path):
+    """bin/check C05 --replay FILE: re-run the stored behaviour against the current tree"""
+    import json
+    d = json.load(open(path))["detail"]
+    cache = common.scratch("vf-c05-oracle-")
+    r = replay_task((0, d["hist"], d.get("origin", "replay"), d.get("mode") == "release", d.get("jobs", 1), cache))
+    for sig, detail in r["violations"]:
+        print("VIOLATION property=%s replay=%s" % (PROP, path))
+        print("  signature: %s" % sig)
+    print("replayed %s: %d violations, drift=%s" % (r["shape"], len(r["violations"]), r["drift"]))
+    return 1 if r["violations"] else 0
+
+
 def main():
     a = common.args(PROP)
+    if a.replay:
+        return replay_file(a.replay)
     rep = evidence.Report(PROP, a.tier, a.seed)
     quick = a.tier == "quick"
     rng = random.Random(a.seed)
